@@ -1,6 +1,7 @@
 import SJ.Props.C14
 import SJ.Props.TypedDepth
 import SJ.Props.TypedUtf8
+import SJ.Props.StreamTypedDepth
 #print axioms SJ.Props.C14.c14_again_once
 #print axioms SJ.Props.C14.c14_depth_bounded
 #print axioms SJ.Props.C14.c14_limit_hit
@@ -19,3 +20,6 @@ import SJ.Props.TypedUtf8
 #print axioms SJ.Props.C14.c14_stream_depth_restored
 #print axioms SJ.Props.C14.c14_stream_item_budget
 #print axioms SJ.Props.TypedUtf8.c14_typed_utf8
+#print axioms SJ.Props.StreamTypedDepth.c14_typed_depth_restored
+#print axioms SJ.Props.StreamTypedDepth.c14_typed_depth_restored_ok
+#print axioms SJ.Props.StreamTypedDepth.c14_typed_stream_depth_restored
